@@ -649,6 +649,25 @@ pub fn gen_c11(run: &mut Run, seed: u64, thorough: bool) {
                 }
             }
             i.register(&Addr::c(123), "register-non-token");
+            // a remote deploy message squatting on the (publicly computable) canonical id of a not-yet-registered token:
+            // the id is then taken (native), and registering the token as canonical must fail and change nothing
+            {
+                let c2 = i.new_sac(true);
+                let salt_obs = i.op(&format!("its.q_canonical_salt {}", c2.tok()), "q-id");
+                if let Some(salt_hex) = tok_after_ok(&salt_obs, 'x') {
+                    let id_obs = i.op(&format!("its.q_token_id {} {}", Addr { contract: false, id: [0u8; 32] }.tok(), salt_hex), "q-id");
+                    if let Some(idh) = tok_after_ok(&id_obs, 'x') {
+                        let cid = unhx32(&idh);
+                        let p = deploy_payload(&env, b"ethereum", &cid, b"Squat", b"SQ", 5, None);
+                        i.deliver(&p, "remote-deploy-onto-future-canonical-id");
+                        i.op(&format!("its.token_address {}", idh), "q");
+                        i.op(&format!("its.manager {}", idh), "q");
+                        i.register(&c2, "register-canonical-after-squat");
+                        i.op(&format!("its.token_address {}", idh), "q");
+                        i.op(&format!("its.manager {}", idh), "q");
+                    }
+                }
+            }
             // remote deploy messages that collide or not
             if let Some((tid, addr)) = deployed.first().cloned() {
                 let p = deploy_payload(&env, b"ethereum", &tid, b"Collide", b"CL", 3, None);
